@@ -141,9 +141,10 @@ PROPS["C11"] = {
 PROPS["C16"] = {
     "module": "RCE.Props.C16",
     "theorems": ["RCE.Props.C16.search_clock_indep"],
-    "streams": {"quick": [S("search-plain", "plain", 48, 3, extra=["--repeat", 3])], "thorough": [S("search-plain", "plain", 400, 4, extra=["--repeat", 3])]},
+    "streams": {"quick": [S("search-plain", "plain", 48, 3, extra=["--repeat", 3])], "thorough": [S("search-plain", "plain", 400, 4, extra=["--repeat", 3]),
+                             {"name": "search-bench", "stream": "search", "driver": "search:0", "shards": 16, "args": ["--mode", "file", "--cases", "work/bench_cases.txt"]}]},
     "eval_key": "cases", "distinct_key": "distinct_cases",
-    "rule": SEARCH_RULE + "; for C16: every case is run three times in one process from a fresh cache and all outputs (info lines, bestmove, every cache insert, counters, cache checksum) "
+    "rule": SEARCH_RULE + "; thorough: the 62 bench positions to bench::MAXDEPTH in-process, node counts and every cache write equal to the model's (the bench node total is their sum); for C16: every case is run three times in one process from a fresh cache and all outputs (info lines, bestmove, every cache insert, counters, cache checksum) "
             "must be identical to each other and to the model's single prediction; the process-level part runs the real binary in separate processes, under 16-way CPU load, and the bench subcommand twice",
     "assumptions": [],
 }
@@ -252,3 +253,4 @@ PROPS["C12"] = {
 }
 PROPS["C14"]["extra"] = procdrive.c14_extra
 PROPS["C14"]["need_engine"] = True
+PROPS["C01"]["extra"] = procdrive.c01_extra
